@@ -134,6 +134,13 @@ class BatchProcessor:
         # Remove padding if needed
         if self.n_pad > 0:
             return results[: -self.n_pad]
+        if self.n_devices > 1:
+            # Nothing is stripped, so the flattened result is still sharded across
+            # devices and cannot be passed back to pmap as a broadcast argument:
+            # gather it onto a single device
+            results = jax.device_put(
+                results, min(results.devices(), key=lambda device: device.id)
+            )
         return results
 
     @property
